@@ -11,6 +11,7 @@ import (
 	"go/token"
 	"go/types"
 	"sort"
+	"strconv"
 	"strings"
 )
 
@@ -51,7 +52,99 @@ type fmtSide struct {
 	Problems    []string
 }
 
-func exprStr(e ast.Expr) string { return types.ExprString(e) }
+// foldInfo is the type information of the tree being analysed (set by Load): exprStr spells named constants by their
+// values, so that `[]byte(flatMagic)` and `[]byte("FLAT")`, `uint32(len(flatMagic))` and `4` are one spelling.
+var foldInfo *types.Info
+
+func exprStr(e ast.Expr) string {
+	if foldInfo != nil && e != nil {
+		e = foldConsts(foldInfo, e)
+	}
+	return types.ExprString(e)
+}
+
+func mentionsNamedConst(info *types.Info, e ast.Expr) bool {
+	found := false
+	ast.Inspect(e, func(n ast.Node) bool {
+		if id, ok := n.(*ast.Ident); ok {
+			if c, ok := info.Uses[id].(*types.Const); ok && c.Pkg() != nil {
+				found = true
+			}
+		}
+		return !found
+	})
+	return found
+}
+
+// foldConsts returns e with every maximal constant subexpression that mentions a named constant replaced by its value.
+func foldConsts(info *types.Info, e ast.Expr) ast.Expr {
+	if e == nil {
+		return nil
+	}
+	if tv, ok := info.Types[e]; ok && tv.Value != nil && !tv.IsType() {
+		if _, isLit := e.(*ast.BasicLit); !isLit && mentionsNamedConst(info, e) {
+			switch tv.Value.Kind() {
+			case constant.String:
+				return &ast.BasicLit{Kind: token.STRING, Value: strconv.Quote(constant.StringVal(tv.Value)), ValuePos: e.Pos()}
+			case constant.Int:
+				return &ast.BasicLit{Kind: token.INT, Value: tv.Value.ExactString(), ValuePos: e.Pos()}
+			}
+		}
+		return e
+	}
+	if !mentionsNamedConst(info, e) {
+		return e
+	}
+	switch x := e.(type) {
+	case *ast.ParenExpr:
+		c := *x
+		c.X = foldConsts(info, x.X)
+		return &c
+	case *ast.CallExpr:
+		c := *x
+		c.Args = make([]ast.Expr, len(x.Args))
+		for i, a := range x.Args {
+			c.Args[i] = foldConsts(info, a)
+		}
+		return &c
+	case *ast.BinaryExpr:
+		c := *x
+		c.X, c.Y = foldConsts(info, x.X), foldConsts(info, x.Y)
+		return &c
+	case *ast.UnaryExpr:
+		c := *x
+		c.X = foldConsts(info, x.X)
+		return &c
+	case *ast.StarExpr:
+		c := *x
+		c.X = foldConsts(info, x.X)
+		return &c
+	case *ast.SelectorExpr:
+		c := *x
+		c.X = foldConsts(info, x.X)
+		return &c
+	case *ast.IndexExpr:
+		c := *x
+		c.X, c.Index = foldConsts(info, x.X), foldConsts(info, x.Index)
+		return &c
+	case *ast.SliceExpr:
+		c := *x
+		c.X, c.Low, c.High, c.Max = foldConsts(info, x.X), foldConsts(info, x.Low), foldConsts(info, x.High), foldConsts(info, x.Max)
+		return &c
+	case *ast.KeyValueExpr:
+		c := *x
+		c.Value = foldConsts(info, x.Value)
+		return &c
+	case *ast.CompositeLit:
+		c := *x
+		c.Elts = make([]ast.Expr, len(x.Elts))
+		for i, a := range x.Elts {
+			c.Elts[i] = foldConsts(info, a)
+		}
+		return &c
+	}
+	return e
+}
 
 // stripConv removes numeric conversions: uint32(x) → x, int(x) → x.
 func stripConv(info *types.Info, e ast.Expr) ast.Expr {
@@ -600,6 +693,9 @@ func (s *fmtSide) call(c *ast.CallExpr) []*fTok {
 				if at, ok := info.TypeOf(arg).Underlying().(*types.Array); ok {
 					t.Len = fmt.Sprint(at.Len())
 				}
+				if n, ok := constBytesLen(info, arg); ok {
+					t.Len = fmt.Sprint(n)
+				}
 				return []*fTok{t}
 			}
 		}
@@ -629,6 +725,9 @@ func substParams(info *types.Info, toks []*fTok, params *ast.FieldList, args []a
 					a := args[i]
 					m[n.Name] = exprStr(a)
 					ml[n.Name] = exprStr(a)
+					if cn, ok := constBytesLen(info, a); ok {
+						ml[n.Name] = fmt.Sprint(cn)
+					}
 					if se, ok := a.(*ast.SliceExpr); ok && se.Low == nil && se.High == nil {
 						ml[n.Name] = exprStr(se.X)
 						if t := info.TypeOf(se.X); t != nil {
@@ -942,4 +1041,22 @@ func sortedStrings(m map[string]bool) []string {
 	}
 	sort.Strings(out)
 	return out
+}
+
+// constBytesLen: e is []byte(S) for a constant string S; returns len(S).
+func constBytesLen(info *types.Info, e ast.Expr) (int, bool) {
+	c, ok := ast.Unparen(e).(*ast.CallExpr)
+	if !ok || len(c.Args) != 1 {
+		return 0, false
+	}
+	if tv, ok := info.Types[c.Fun]; !ok || !tv.IsType() {
+		return 0, false
+	}
+	if sl, ok := info.TypeOf(c.Fun).Underlying().(*types.Slice); !ok || tstr(sl.Elem(), nil) != "byte" && tstr(sl.Elem(), nil) != "uint8" {
+		return 0, false
+	}
+	if sv, ok := constStringOf(info, c.Args[0]); ok {
+		return len(sv), true
+	}
+	return 0, false
 }
